@@ -2,7 +2,7 @@
    recorded guards: so whenever a run finds [agree] (implementation = model) on a
    case, the theorems transfer to the implementation's behaviour on that case. *)
 From Boltons Require Import Lib.Prelude Lib.C16_Text Spec.C16_Spec Model.C16_Model Gen.C16_Gen
-  Check.C16_Check Proofs.C16_Text Proofs.C16_Regex Proofs.C16_Parse Proofs.C16_Format Proofs.C16_Main.
+  Check.C16_Check Proofs.C16_Text Proofs.C16_Regex Proofs.C16_Parse Proofs.C16_Fold Proofs.C16_Format Proofs.C16_Main.
 Open Scope N_scope.
 
 Lemma frame_eqb_refl f : frame_eqb f f = true.
@@ -45,12 +45,29 @@ Proof.
   intros Hr Hl. unfold rt_verdict.
   destruct (model_parse_print (marked_text T ms)) as [mp ms'] eqn:E. cbn [fst snd].
   rewrite rtb_eqb_refl, rstr_eqb_refl. unfold rt_input_ok. rewrite Hr, str_eqb_refl, Hl, N.eqb_refl.
-  cbn [andb]. rewrite andb_false_r.
-  destruct (wf P T && markers_ok ms) eqn:W; [|reflexivity].
-  apply andb_true_iff in W as [W1 W2].
+  cbn [andb].
+  destruct (wf P T && markers_ok ms && src_consistent (t_frames T)) eqn:W; [|reflexivity].
+  apply andb_true_iff in W as [W W3]. apply andb_true_iff in W as [W1 W2].
   unfold model_parse_print in E. rewrite (parse_render P py_cc_ok T ms W1 W2 Hl) in E.
-  rewrite (to_string_plain T (wf_funcs P T W1)) in E. injection E as <- <-.
-  rewrite (std_text_plain T Hr), rtb_eqb_refl, rstr_eqb_refl. reflexivity.
+  rewrite (to_string_std T (wf_funcs P T W1)) in E. injection E as <- <-.
+  rewrite rtb_eqb_refl, rstr_eqb_refl. reflexivity.
+Qed.
+
+(* the same for the interpreter's folded rendering of a recursive traceback *)
+Theorem rt_sound_folded T ms :
+  long_repeat (t_frames T) = true ->
+  rt_verdict T ms (std_text T) (fst (model_parse_print (std_text T))) (snd (model_parse_print (std_text T)))
+  = (true, true, false).
+Proof.
+  intros Hr. unfold rt_verdict.
+  destruct (model_parse_print (std_text T)) as [mp ms'] eqn:E. cbn [fst snd].
+  rewrite rtb_eqb_refl, rstr_eqb_refl. unfold rt_input_ok. rewrite Hr, str_eqb_refl.
+  cbn [andb].
+  destruct (wf P T && markers_ok ms && src_consistent (t_frames T)) eqn:W; [|reflexivity].
+  apply andb_true_iff in W as [W W3]. apply andb_true_iff in W as [W1 W2].
+  unfold model_parse_print in E. rewrite (parse_std P py_cc_ok T W1 W3) in E.
+  rewrite (to_string_std T (wf_funcs P T W1)) in E. injection E as <- <-.
+  rewrite rtb_eqb_refl, rstr_eqb_refl. reflexivity.
 Qed.
 
 (* ---- live exceptions ----------------------------------------------------------------------------- *)
@@ -90,9 +107,9 @@ Proof.
     change M_nl with NL. rewrite app_assoc, FMT. apply str_eqb_refl. }
   rewrite CL. cbn [andb orb].
   (* reparse *)
-  destruct (wf P (std_tb P fs e)) eqn:W; cbn [negb orb]; [|reflexivity].
-  destruct (long_repeat (map (std_frame P) fs)) eqn:Hr; cbn [orb]; [reflexivity|].
+  destruct (wf P (std_tb P fs e) && src_consistent (map (std_frame P) fs)) eqn:W; cbn [negb orb]; [|reflexivity].
+  apply andb_true_iff in W as [W Wc].
   unfold model_ei. cbn [eo_more].
-  pose proof (format_reparse_partial P py_cc_ok fs e) as RP. rewrite ET in RP.
-  specialize (RP W Hr). unfold ei_text in RP. rewrite RP, rtb_eqb_refl. reflexivity.
+  pose proof (format_reparse P py_cc_ok fs e) as RP. rewrite ET in RP.
+  specialize (RP W Wc). unfold ei_text in RP. rewrite RP, rtb_eqb_refl. reflexivity.
 Qed.
